@@ -38,6 +38,7 @@ from explorerscript.ssb_converting.ssb_data_types import (
     NUMBER_OF_SPACES_PER_INDENT,
     SsbOpParamPositionMarker,
     DungeonModeConstants,
+    reset_param_indents,
 )
 from explorerscript.ssb_converting.ssb_special_ops import (
     SsbLabelJump,
@@ -107,6 +108,9 @@ class ExplorerScriptSsbDecompiler:
         self.labels_already_printed = []
         self._line_number = 1
         self.smb = SourceMapBuilder()
+        # The indent of string parameters is scratch state of a previous print of the same op objects (by this or by the
+        # SsbScript decompiler). Not every writer sets it before printing, so start from the state of fresh objects.
+        reset_param_indents(self._routine_ops)
 
         raw_routine_backup_ops = deepcopy(self._routine_ops)
 
